@@ -50,6 +50,14 @@ def gen_case(rng, tier, index):
         from . import c06
         case["newfuncs"] = [c06.new_function(rng, case, k)
                             for k in range(rng.choice([1, 1, 2]))]
+    data_ids = {b["id"] for s in case["secs"] for iv in s["ivs"]
+                for b in iv["blocks"] if not b["code"]}
+    for e in case["edits"]:
+        if e.get("b") in data_ids and "lines" in e.get("p", {}):
+            for ln in e["p"]["lines"]:
+                if ln.get("k") == "bytes" and rng.random() < 0.6:
+                    # typed data (an entry in the encodings table)
+                    ln["as"] = "ascii"
     if case["fmt"] == "elf" and rng.random() < 0.3:
         # DT_INIT / DT_FINI: blocks the loader calls (elfDynamicInit /
         # elfDynamicFini tables); like the entry point they follow their
